@@ -76,6 +76,14 @@ func verifDecoder(typeptr uintptr, dec Decoder, index int) {
 		return
 	}
 	vcStats.FastPath++
+	// the address-indexed table is only for descriptors inside [BaseTypeAddr, MaxTypeAddr], and a
+	// descriptor's slot is a function of its whole address
+	if typeptr < typeAddr.BaseTypeAddr || typeptr > typeAddr.MaxTypeAddr || uintptr(index) != (typeptr-typeAddr.BaseTypeAddr)>>typeAddr.AddrShift {
+		vcStats.SlotCollision++
+		if len(vcReports) < 16 {
+			vcReports = append(vcReports, fmt.Sprintf("decoder cache slot %d used for a descriptor outside the address window or with another slot number", index))
+		}
+	}
 	if o, ok := vcOwner[index]; !ok {
 		vcOwner[index] = typeptr
 	} else if o != typeptr {
